@@ -397,7 +397,7 @@ func checkC21(env *kernel.Env) {
 			return "", func(m *aModel, c *aCol) { m.cols = append(m.cols, c) }
 		}
 		for {
-			pick := T.Pick(4, 2, 2, 6, 2, 1, 1, 2, 1, 1)
+			pick := T.Pick(4, 2, 2, 6, 2, 1, 1, 2, 1, 1, 1)
 			// known finding (schema-change-with-secondary-index): once the table has a
 			// secondary index most runs keep to changes that neither move nor retype columns
 			safeOnly := len(m.idx) > 0 && env.Avoid("schema-change-with-secondary-index")
@@ -564,6 +564,9 @@ func checkC21(env *kernel.Env) {
 				unique := T.Bool(1, 2)
 				m.nextC++
 				iname := fmt.Sprintf("ix%d", m.nextC)
+				if T.Bool(1, 3) {
+					iname = fmt.Sprintf("Ix%d", m.nextC) // index names are case-insensitive but keep their spelling
+				}
 				u := ""
 				if unique {
 					u = "UNIQUE "
@@ -581,11 +584,31 @@ func checkC21(env *kernel.Env) {
 				}
 				i := T.Draw(len(m.idx))
 				iname := m.idx[i].name
-				return &aOp{kind: "drop-index", sql: fmt.Sprintf("ALTER TABLE %s DROP INDEX %s", m.name, iname), apply: func(m *aModel) string {
+				spelled := iname
+				if T.Bool(1, 3) {
+					spelled = strings.ToLower(iname)
+				}
+				return &aOp{kind: "drop-index", sql: fmt.Sprintf("ALTER TABLE %s DROP INDEX %s", m.name, spelled), apply: func(m *aModel) string {
 					for j, x := range m.idx {
 						if x.name == iname {
 							m.idx = append(m.idx[:j], m.idx[j+1:]...)
 							break
+						}
+					}
+					return ""
+				}}
+			case 10: // RENAME INDEX
+				if len(m.idx) == 0 {
+					continue
+				}
+				i := T.Draw(len(m.idx))
+				iname := m.idx[i].name
+				m.nextC++
+				to := fmt.Sprintf("%s%d", []string{"rx", "Rx"}[T.Draw(2)], m.nextC)
+				return &aOp{kind: "rename-index", sql: fmt.Sprintf("ALTER TABLE %s RENAME INDEX %s TO %s", m.name, iname, to), apply: func(m *aModel) string {
+					for _, x := range m.idx {
+						if x.name == iname {
+							x.name = to
 						}
 					}
 					return ""
@@ -770,7 +793,7 @@ func c21Safe(op *aOp) bool {
 		return c21Safe(&aOp{kind: op.kind[:i], sql: parts[0]}) && c21Safe(&aOp{kind: op.kind[i+1:], sql: parts[len(parts)-1]})
 	}
 	switch op.kind {
-	case "add-index", "drop-index", "rename-table":
+	case "add-index", "drop-index", "rename-table", "rename-index":
 		return true
 	case "add-column":
 		return !strings.Contains(op.sql, " FIRST") && !strings.Contains(op.sql, " AFTER ")
